@@ -162,6 +162,24 @@ def concurrent_dumps(res, rng, g, execnet):
         res.violation("concurrent-dumps-bytes-differ-from-v2-format", f"{len(bad)} of the overlapping calls; first: thread {bad[0][0]}: {bad[0][1]} for {bad[0][2]}")
 
 
+def _poison(x, depth=0):
+    if depth > 60:
+        return
+    if isinstance(x, list):
+        for y in x:
+            _poison(y, depth + 1)
+        x.append("poison")
+    elif isinstance(x, dict):
+        for y in list(x.values()):
+            _poison(y, depth + 1)
+        x["poison"] = "poison"
+    elif isinstance(x, set):
+        x.add("poison")
+    elif isinstance(x, tuple):
+        for y in x:
+            _poison(y, depth + 1)
+
+
 def run_values(spec):
     import execnet
 
@@ -212,6 +230,12 @@ def run_values(spec):
             w = execnet.loads(refb)
             if values.canon(w) != cv:
                 res.violation("loads-of-ref-encoding-differs", short(v))
+            elif i % 4 == 0:
+                # "loads to the same value" every time: what the receiver of an earlier load did to its containers is
+                # not part of a later load of the same bytes
+                _poison(w)
+                if values.canon(execnet.loads(refb)) != cv:
+                    res.violation("loads-of-ref-encoding-differs-after-an-earlier-result-was-mutated", short(v))
         except BaseException as e:
             res.violation(f"loads-of-ref-encoding-raises:{type(e).__name__}", f"{e} {short(v)}")
 
